@@ -20,7 +20,7 @@ RULE = ('case = (base triple: signer algorithm x signature kind x hash x produce
         'verified true and >= 1 semantic mutant was produced; distinct = distinct (base, mutation class, part) descriptors')
 ASSUMPTIONS = ['vf.ref.sig decides whether a mutant is semantic (validated on fixtures and against gpg in C02)', 'cryptography/OpenSSL primitives',
                'forgery across a 64-bit key-id collision is not attempted']
-MIN_COUNTERS = {'quick': {'embedded_back_signature_edits': 150, 'semantic_mutants': 20000, 'baseline_true': 60, 'sig_bitflips': 10000, 'subject_mutants': 2000, 'key_mutants': 300,
+MIN_COUNTERS = {'quick': {'multi_subpacket_attribute_edits': 30, 'embedded_back_signature_edits': 150, 'semantic_mutants': 20000, 'baseline_true': 60, 'sig_bitflips': 10000, 'subject_mutants': 2000, 'key_mutants': 300,
                           'wrong_verifier': 20, 'type_confusion': 200, 'carrier_mutants': 2000, 'message_content_edits': 300, 'several_signature_subjects': 90, 'copies_of_altered_signatures': 2000, 'secret_form_subject_mutants': 300, 'cleartext_text_edits': 250},
                 'thorough': {'semantic_mutants': 100000, 'baseline_true': 200}}
 BUDGET = {'quick': (600, 1500), 'thorough': (1800, 3600)}
@@ -582,7 +582,72 @@ def _keycarrier(ctx, d, pgpy):
         n += 1
     if d['part'] == 0:
         _backsig_edits(ctx, d, pgpy, k, blob)
+        _multi_attribute(ctx, d, pgpy, k, blob)
     ctx.nontrivial(d)
+
+
+def _multi_attribute(ctx, d, pgpy, k, blob):
+    """a user attribute made of SEVERAL subpackets (two images and one of a type nobody knows; written and certified by the reference, since PGPy's
+    API builds single-image attributes only): the certification covers all of them, so an edit of any one - first, middle or last - must not verify"""
+    sm = pool.mat(d['signer'])
+    pk = wire.split(blob)
+    prim_pub = RK.parse_pub(pk[0].body)['pubbody']
+    img = lambda n: b'\x10\x00\x01\x01' + bytes(12) + sigwork.JPEG[:-2] + bytes([n]) * 3 + b'\xff\xd9'
+    parts = [wire.subpacket(1, img(1)), wire.subpacket(100, b'attribute subpacket of a private type'), wire.subpacket(1, img(2), lenform=5)]
+    ua = b''.join(parts)
+    hashed = wire.subpacket(2, (1500000500).to_bytes(4, 'big')) + wire.subpacket(33, b'\x04' + RK.fpr_of(sm))
+    try:
+        sigbody = RS.sign(sm, 0x13, 8, hashed, wire.subpacket(16, RK.fpr_of(sm)[-8:]), primary=prim_pub, ua=ua)
+    except Exception as e:
+        ctx.observe('multi_attribute_not_signable:' + type(e).__name__)
+        return
+    sigpkt = wire.new_hdr(2, len(sigbody)) + sigbody
+
+    def keyblob(uabody):
+        return blob + wire.new_hdr(17, len(uabody)) + uabody + sigpkt
+
+    def outcome(uabody):
+        k2 = pgpy.PGPKey.from_blob(keyblob(uabody))[0]
+        uao = [u for u in k2.userattributes if bytes(u._uid.__bytearray__())[-len(uabody):] == uabody or True][-1]
+        s_ = [x for x in uao.__sig__ if bytes(x._signature.__bytearray__()) == sigbody or bytes(x)[-len(sigbody):] == sigbody]
+        if not s_:
+            return 'error:signature-not-attached', 'error:signature-not-attached'
+        r1, _ = sigwork.pgpy_verify(k.pubkey, uao, s_[0])
+        r2, _ = sigwork.pgpy_verify(k2, k2)
+        return r1, r2
+    try:
+        base1, base2 = outcome(ua)
+    except Exception as e:
+        ctx.observe('multi_attribute_not_loadable:' + type(e).__name__)
+        return
+    if base1 != 'true':
+        ctx.fail('reference-made-certification-over-several-attribute-subpackets-rejected', {'base': d, 'result': base1})
+        return
+    ctx.count('baseline_true')
+    muts = []
+    offs = [0, len(parts[0]), len(parts[0]) + len(parts[1])]
+    for pi, (o, prt) in enumerate(zip(offs, parts)):
+        hl = len(prt) - (len(img(1)) + 1 if pi != 1 else len(b'attribute subpacket of a private type') + 1)
+        for q in (hl + 1, hl + 20, len(prt) - 4):          # inside the body of that subpacket (never its length or type octet)
+            m = bytearray(ua)
+            m[o + q] ^= 0x10
+            muts.append(('attribute-subpacket-%d-of-3-edited' % (pi + 1), bytes(m)))
+    muts.append(('first-image-replaced', wire.subpacket(1, img(9)) + parts[1] + parts[2]))
+    muts.append(('last-image-replaced', parts[0] + parts[1] + wire.subpacket(1, img(9), lenform=5)))
+    muts.append(('first-subpacket-removed', parts[1] + parts[2]))
+    muts.append(('only-the-last-subpacket-kept', parts[2]))
+    muts.append(('subpackets-reordered', parts[2] + parts[1] + parts[0]))
+    for what, mb in muts:
+        ctx.count('multi_subpacket_attribute_edits')
+        try:
+            with time_limit(10):
+                r1, r2 = outcome(mb)
+        except Stalled:
+            r1 = r2 = 'error:stalled'
+        except Exception:
+            r1 = r2 = 'error:load'
+        judge(ctx, 'invalid', r1, what, d, {'verifier': 'genuine key over the altered attribute'})
+        judge(ctx, 'invalid', r2, what, d, {'verifier': 'the key that carries it'})
 
 
 def _backsig_edits(ctx, d, pgpy, k, blob):
